@@ -54,6 +54,7 @@ def compare_envelopes(orig, again):
 
 # ---------------------------------------------------------------- shown description vs. creating description
 SPECIAL_FORMS = ("RFC4122_UUID", "file", "file_direct", "envelope")
+STAR_PREFIXES = ("SuitAuthentication", "recipients")
 
 
 def retyped(orig, shown, path=()):
@@ -76,6 +77,11 @@ def retyped(orig, shown, path=()):
             if k == "suit-parameter-encryption-info" and isinstance(v, dict) and ("raw" in v or "file" in v):
                 continue          # raw encryption info is shown expanded
             kk = k
+            for pre in STAR_PREFIXES:
+                if k.startswith(pre) and k != pre and k != "SuitDigest":
+                    # repeated tuple members are renumbered 1..n by parse, in order
+                    same = [x for x in orig if x.startswith(pre) and x != pre]
+                    kk = pre + str(same.index(k) + 1)
             if kk not in shown:
                 # unnamed-map keys are shown in their canonical spelling (json.dumps of the parsed key)
                 alt = [x for x in shown if _same_key(x, k)]
@@ -87,7 +93,11 @@ def retyped(orig, shown, path=()):
                     if not cands:
                         yield (path + (k,), v, "<absent>")
                         continue
-                    best = min(cands, key=lambda x: sum(1 for _ in retyped(jk, _j(x))))
+                    def _score(x):
+                        diffs = list(retyped(jk, _j(x)))
+                        unknown = sum(1 for (pp, o, sh) in diffs if known_retype(("suit-components",) + pp, o, sh) is None)
+                        return (unknown, len(diffs))
+                    best = min(cands, key=_score)
                     yield from retyped(jk, _j(best), path + (k,))
                     kk = best
                 else:
@@ -136,8 +146,23 @@ def under_component_id(path):
         any(isinstance(p, str) and p.startswith("[") for p in path)
 
 
+AMBIGUOUS_BSTR_FIELDS = ("suit-cose-key-id", "suit-parameter-content", "ciphertext")
+
+
 def known_retype(path, orig, shown):
-    """F4b: a component-identifier part whose byte string is also the encoding of an earlier union alternative."""
+    """F4b: a byte string that is also the encoding of an earlier union alternative is shown as that alternative."""
+    if path and path[-1] in AMBIGUOUS_BSTR_FIELDS and isinstance(orig, str):
+        try:
+            raw = bytes.fromhex(orig)
+        except ValueError:
+            raw = None
+        if raw is not None:
+            if isinstance(shown, int) and not isinstance(shown, bool) and cbor2.dumps(shown) == raw:
+                return "F4b"                 # content that is the canonical encoding of an integer, shown as that integer
+            if shown is None and raw == b"\xf6":
+                return "F4a1r" if path[-1] == "ciphertext" else "F4b"
+            if isinstance(shown, bool) and cbor2.dumps(shown) == raw:
+                return "F4b"
     if under_component_id(path) and isinstance(orig, str):
         enc = cbor2.dumps(orig)
         if len(orig) == 1 and isinstance(shown, int):
@@ -196,7 +221,7 @@ def check_one(ck, stream, env_bytes, origin, fails, mres_parse=None, mres_re=Non
     if desc is not None:
         for path, o, sh in retyped(desc, obj):
             fam = known_retype(path, o, sh)
-            k = ck.is_known({"F4b": "ambiguous_bstr_retyped", "F4a3": "nonascii_single_char_part"}.get(fam, "-"), "") if fam else None
+            k = ck.is_known({"F4b": "ambiguous_bstr_retyped", "F4a3": "nonascii_single_char_part", "F4a1r": "ciphertext_f6"}.get(fam, "-"), "") if fam else None
             if k is not None:
                 ck.known_finding(k, k["what_fails"] + f" [replayed: {o!r} shown as {sh!r}]")
             else:
@@ -212,6 +237,10 @@ def check_one(ck, stream, env_bytes, origin, fails, mres_parse=None, mres_re=Non
 
 def classify_known(ck, env_bytes, obj, why):
     """F4a3: the only byte-level round-trip difference on record: a one-character non-ASCII component-id part."""
+    k6 = ck.is_known("ciphertext_f6", why)
+    if k6 is not None and _has_f6_ciphertext(cbor2.loads(env_bytes)):
+        ck.known_finding(k6, k6["what_fails"] + f" [replayed: {why[:80]}]")
+        return k6
     k = ck.is_known("nonascii_single_char_part", why)
     if k is None:
         return None
@@ -225,6 +254,26 @@ def classify_known(ck, env_bytes, obj, why):
         ck.known_finding(k, k["what_fails"] + f" [replayed: {why[:80]}]")
         return k
     return None
+
+
+def _has_f6_ciphertext(o, depth=0):
+    """A COSE_Encrypt / COSE_recipient array whose ciphertext is the one-byte string f6 (anywhere, through bstr layers)."""
+    if depth > 30:
+        return False
+    if isinstance(o, cbor2.CBORTag):
+        return _has_f6_ciphertext(o.value, depth + 1)
+    if isinstance(o, (list, tuple)):
+        if len(o) >= 3 and o[2] == b"\xf6" and isinstance(o[0], bytes) and hasattr(o[1], "items"):
+            return True
+        return any(_has_f6_ciphertext(x, depth + 1) for x in o)
+    if hasattr(o, "items"):
+        return any(_has_f6_ciphertext(v, depth + 1) for v in o.values())
+    if isinstance(o, bytes) and len(o) > 1:
+        try:
+            return _has_f6_ciphertext(cbor2.loads(o), depth + 1)
+        except Exception:  # noqa: BLE001
+            return False
+    return False
 
 
 def _j2(x):
